@@ -48,6 +48,8 @@ func c01Row(id int, ia, ib int) map[string]any {
 	default:
 		row["k"] = int16(k)
 	}
+	// native integers whose %v text differs from the text of the equal float64 constant (1e+06)
+	row["K"] = []int{5, 1000000, 2000000, 1000001}[(ia+ib)%4]
 	if ib%3 == 0 {
 		row["n"] = nil
 	} else {
@@ -78,6 +80,14 @@ func c01Atoms() (all []Expr, rep []Expr, small []Expr) {
 			all = append(all, Cmp{op, k, num(cst)}, Cmp{op, num(cst), k})
 		}
 		all = append(all, Cmp{op, k, a})
+	}
+	K := Col{"K"}
+	for _, op := range ops {
+		all = append(all, Cmp{op, K, num(1000000)}, Cmp{op, num(2000000), K})
+	}
+	for _, neg := range []bool{false, true} {
+		all = append(all, In{X: K, List: []Expr{num(5), num(1000000)}, Neg: neg}, In{X: K, List: []Expr{num(2000000)}, Neg: neg},
+			Between{X: K, Lo: num(1000000), Hi: num(1000001), Neg: neg}, In{X: a, List: []Expr{num(1000000), num(1)}, Neg: neg})
 	}
 	all = append(all, Cmp{"=", c, Lit{V: true}}, Cmp{"!=", c, Lit{V: false}}, Cmp{"=", c, Lit{V: false}})
 	for _, neg := range []bool{false, true} {
